@@ -375,11 +375,14 @@ def materializeFLin (m : FLModel α) (cs : List α) (xs : List Nat) (op : CmpOp)
   | .gt => m.post (.flinLe (negAllF cs) xs (-k - e6))
 
 /-- the immediate domain edit of `Var == Val` / `Val == Var`: only when variable and literal have
-the same kind (`remove_all_but` resp. `min = max = f`) -/
+the same kind (`remove_all_but` resp. `min = max = f` when `f` lies in the interval) -/
 def eqEdit (m : FLModel α) (v : Nat) (k : FVal α) : FLModel α :=
   match m.doms[v]?, k with
   | some (.int d), .i c => m.setDom v (.int (d.filter (· == c)))
-  | some (.flt _ _), .f x => m.setDom v (.flt x x)
+  | some (.flt lo hi), .f x =>
+    -- since the repair `fix: x.eq(c) on a float variable narrows the domain only to a value inside
+    -- it`: a constant outside the interval leaves the domain alone (the posted `Eq` fails later)
+    if Num.le lo x && Num.le x hi then m.setDom v (.flt x x) else m
   | _, _ => m
 
 /-- the `ReifiedBinary` arm of `materialize_constraint_kind`: `b ⇔ (l op r)`, both operands through
